@@ -332,6 +332,148 @@ def pointwise_rules(rep, model):
     rep.floor('R4L', 'pointwise evaluations', n, 40)
 
 
+def scalar_type_rules(rep, model):
+    """R4t: `LinearSpace.lincomb` hands Python integer scalars to the
+    back-end `_lincomb` as integers (integer tensor spaces live over the
+    real field: a conversion to a field element makes them floats, and the
+    in-place integer kernels then raise or compute in float64)."""
+    from ..symex import Interp, Hooks, Bound
+    SPF = 'odl/set/space.py'
+    ci = model.get('LinearSpace')
+    rn = model.get('RealNumbers')
+    if ci is None or 'lincomb' not in ci.methods or rn is None:
+        raise AnalysisError('anchor vanished: LinearSpace.lincomb')
+    fn = ci.methods['lincomb']
+
+    class SH(Hooks):
+        def __init__(self):
+            self.calls = []
+
+        def on_getattr(self, interp, obj, name):
+            if isinstance(obj, Inst) and obj.ci.name == 'LinearSpace':
+                if name == '_lincomb':
+                    return Builtin('_lincomb', lambda *a: self.calls.append(
+                        a))
+                if name == 'field':
+                    return field
+            return NotImplemented
+
+    class SI(Interp):
+        def contains(self, cont, item, node):
+            if isinstance(cont, Inst) and cont.ci.name == 'LinearSpace':
+                return isinstance(item, Rec) and item.kind == 'element'
+            if isinstance(cont, Inst):
+                dc, m = self.model.lookup(cont.ci, '__contains__')
+                if isinstance(m, ast.FunctionDef):
+                    return self.truth_value(self.call_func(Func(
+                        m, self.env_of(dc.rel), dc), [cont, item], {}), node)
+            return Interp.contains(self, cont, item, node)
+    n = 0
+    for tag, args in (('lincomb(2, x, 3, y, out)', (2, 'x', 3, 'y', 'o')),
+                      ('lincomb(2, x, out=out)', (2, 'x', None, None, 'o')),
+                      ('lincomb(-1, x, 0, y, out)', (-1, 'x', 0, 'y', 'o'))):
+        n += 1
+        cons = 'LinearSpace.lincomb[%s, integer scalars]' % tag
+        try:
+            H = SH()
+            I = SI(model, {}, H)
+            field = Inst(rn)
+            sp = Inst(ci)
+            el = {k: Rec('element', name=k) for k in 'xyo'}
+            a, x1, b, x2, out = [el.get(v, v) if isinstance(v, str) else v
+                                 for v in args]
+            I.call_func(Func(fn, I.env_of(SPF), ci), [sp, a, x1, b, x2, out],
+                        {})
+            if len(H.calls) != 1:
+                raise Undecided('%d back-end calls' % len(H.calls))
+            ga, gx1, gb, gx2, gout = H.calls[0]
+            probs = []
+            for nm, g, w in (('a', ga, a), ('b', gb, 0 if b is None else b)):
+                if not (isinstance(g, int) and not isinstance(g, bool)
+                        and g == w):
+                    probs.append('the integer scalar %s = %r reaches '
+                                 '_lincomb as %r (%s)' % (
+                                     nm, w, g, type(g).__name__))
+            if gx1 is not x1 or gout is not out or (
+                    b is not None and gx2 is not x2):
+                probs.append('operands in other roles')
+            if probs:
+                rep.violation('R4t', cons, '; '.join(probs), SPF, fn.lineno)
+            else:
+                rep.holds('R4t', cons, 'scalars and operands reach the '
+                          'back-end unconverted')
+        except Undecided as e:
+            rep.undecided('R4t', cons, str(e), SPF, fn.lineno)
+        except PyRaise as e:
+            rep.violation('R4t', cons, 'raises %s' % e.name, SPF, fn.lineno)
+    rep.floor('R4t', 'scalar type evaluations', n, 3)
+
+
+def copy_rules(rep, model):
+    """R5L: `NumpyTensor.copy` on data of every memory layout, through the
+    real `NumpyTensorSpace.element`: the copy holds the entries and shares
+    no memory with the original."""
+    ci = model.get('NumpyTensor')
+    csp = model.get('NumpyTensorSpace')
+    if ci is None or 'copy' not in ci.methods or csp is None:
+        raise AnalysisError('anchor vanished: NumpyTensor.copy')
+    fn = ci.methods['copy']
+
+    class CH(LH):
+        def on_getattr(self, interp, obj, name):
+            if isinstance(obj, Inst) and obj.ci.name == 'NumpyTensorSpace' \
+                    and name == 'element_type':
+                return Builtin('element_type', lambda sp, arr: Rec(
+                    'made-element', space=sp, data=arr))
+            if isinstance(obj, Rec) and name in obj.attrs:
+                return obj.attrs[name]
+            return LH.on_getattr(self, interp, obj, name)
+
+    class CI(LI):
+        def contains(self, cont, item, node):
+            if isinstance(cont, Inst) and cont.ci.name == 'NumpyTensorSpace':
+                return isinstance(item, Inst) and item.attrs.get(
+                    '_LinearSpaceElement__space') is cont
+            return LI.contains(self, cont, item, node)
+    n = 0
+    for lay in ('C', 'F', 'strided', 'transposed'):
+        n += 1
+        cons = 'NumpyTensor.copy[data layout %s]' % lay
+        try:
+            I = CI(model, {}, CH('small'))
+            sp = Inst(csp)
+            sp.attrs['_TensorSpace__shape'] = (2, 3)
+            sp.attrs['_TensorSpace__dtype'] = DT('float64')
+            x = Inst(ci)
+            data = layout_array('x', lay)
+            x.attrs['_LinearSpaceElement__space'] = sp
+            x.attrs['_NumpyTensor__data'] = data
+            r = I.call_func(Func(fn, I.env_of(NPY), ci), [x], {})
+            if not (isinstance(r, Rec) and r.kind == 'made-element' and
+                    isinstance(r.attrs['data'], NA)):
+                raise Undecided('result %r' % (r,))
+            got = r.attrs['data']
+            probs = []
+            if r.attrs['space'] is not sp:
+                probs.append('element of another space')
+            if got.a.shape != data.a.shape or any(
+                    not (to_rat(a) - to_rat(b)).is_zero()
+                    for a, b in zip(got.a.ravel(), data.a.ravel())):
+                probs.append('entries differ')
+            if _np.shares_memory(got.a, data.a):
+                probs.append('the copy shares memory with the original: '
+                             'writing into one changes the other')
+            if probs:
+                rep.violation('R5L', cons, '; '.join(probs), NPY, fn.lineno)
+            else:
+                rep.holds('R5L', cons, 'equal entries in memory of its own')
+        except Undecided as e:
+            rep.undecided('R5L', cons, str(e), NPY, fn.lineno)
+        except PyRaise as e:
+            rep.violation('R5L', cons, 'raises %s' % e.name, NPY, fn.lineno)
+    rep.floor('R5L', 'copy evaluations', n, 4)
+
+
 def layout_rules(rep, model, thorough):
     fn = model.ctx.func(NPY, '_lincomb_impl')
     if fn is None:
